@@ -396,6 +396,14 @@ func main() {
 	var scs []*mcx.Scenario
 	for _, t := range transports() {
 		mk := t.mk
+		if t.name == "dtls-session" {
+			// same conn code as udp; what differs is the real dtls/server.Session (read loop, writes): a reduced set
+			scs = append(scs, scenario(cfg{T: t.name, K: 2, CON: true, Preempt: 0, Env: 1}, mk))
+			scs = append(scs, scenario(cfg{T: t.name, K: 2, CON: true, Collide: "reuse", Preempt: 0, Env: 0}, mk))
+			scs = append(scs, scenario(cfg{T: t.name, K: 2, CON: true, Collide: "race", Preempt: ev.Pick(r, 0, 1), Env: 0}, mk))
+			scs = append(scs, scenario(cfg{T: t.name, K: 2, CON: true, BlockWise: true, BigBody: true, Preempt: 0, Env: ev.Pick(r, 0, 1)}, mk))
+			continue
+		}
 		for _, con := range t.cons {
 			for _, bw := range []bool{false, true} {
 				pb := 1
